@@ -27,7 +27,6 @@ Section Font.
   Variable env : axes_env.
   Variable rules : list rule.
   Hypothesis Hwf : rules_wf UQ rules.
-  Hypothesis Hn : (length (preflight UQ rules) <= 64)%nat.
   Hypothesis Henv : env_inj env.
   Hypothesis Hnocoll : no_collision UQ env rules.
 
@@ -81,8 +80,8 @@ Section Font.
     forall g, font_apply f (qpoint_of env p) g = spec_apply rules p g.
   Proof.
     intros Hcomp g.
-    destruct (overlay_first_match UQ rules Hwf Hn p Hd Hexcl) as [items [Hov Hfm]].
-    destruct (overlay_correct UQ rules Hwf Hn p Hd Hexcl Hcompat) as [items' [Hov' Hspec]].
+    destruct (overlay_first_match UQ rules Hwf p Hd Hexcl) as [items [Hov Hfm]].
+    destruct (overlay_correct UQ rules Hwf p Hd Hexcl Hcompat) as [items' [Hov' Hspec]].
     rewrite Hov in Hov'. inversion Hov'; subst items'. clear Hov'.
     rewrite <- Hspec. clear Hspec.
     unfold compile_rules in Hcomp. rewrite Hov in Hcomp.
@@ -94,7 +93,7 @@ Section Font.
     { unfold provider_conditions in Epc. apply map_opt_Forall2 in Epc. exact Epc. }
     assert (Hnd : NoDup (map fst conds)) by (apply (Hnocoll items _ Hov), (conds_keys lookups items conds HF)).
     rewrite (build_records_nodup conds Hnd).
-    pose proof (select_matches lookups items conds (overlay_items_wf UQ rules Hwf Hn items Hov) HF) as Hsel.
+    pose proof (select_matches lookups items conds (overlay_items_wf UQ rules Hwf items Hov) HF) as Hsel.
     destruct (first_match items p) as [maps|] eqn:Efm; destruct (select_record conds (qpoint_of env p)) as [sidx|] eqn:Esel;
       try contradiction; [|reflexivity].
     destruct Hsel as [idx [Hidx ->]].
